@@ -11,8 +11,10 @@ from __future__ import annotations
 import ast
 import heapq
 import inspect
+import io
 import pickle
 import sys
+import weakref
 
 WORKER_MODULES = (
     "cobra.flux_analysis.variability",
@@ -98,6 +100,55 @@ def _roundtrip(obj):
     return pickle.loads(pickle.dumps(obj, protocol=pickle.HIGHEST_PROTOCOL))
 
 
+# ---- memory that forked workers really share ------------------------------------------------
+# cobra.sampling.hr_sampler.shared_np_array allocates from multiprocessing's shared heap.  With the fork start method
+# (the default wherever cobrapy does not take its Windows path) a worker inherits the parent's address space as a private
+# copy EXCEPT for these buffers, which every worker and the parent keep mapping.  The simulated pool therefore hands each
+# worker a deep copy of the initializer arguments in which exactly these arrays are the parent's own objects.
+SHARED = weakref.WeakValueDictionary()  # id(array) -> array ; arrays returned by shared_np_array and still alive
+_orig_shared = None
+
+
+def _shared_np_array_wrapper(*a, **k):
+    arr = _orig_shared(*a, **k)
+    if CTX is not None:
+        SHARED[id(arr)] = arr
+        CTX.bump("probe:shared_memory_array_created")
+    return arr
+
+
+class _ForkPickler(pickle.Pickler):
+    def __init__(self, buf, table):
+        super().__init__(buf, protocol=pickle.HIGHEST_PROTOCOL)
+        self.table = table
+
+    def persistent_id(self, obj):
+        if SHARED.get(id(obj)) is obj:
+            self.table[id(obj)] = obj
+            return id(obj)
+        return None
+
+
+class _ForkUnpickler(pickle.Unpickler):
+    def __init__(self, buf, table):
+        super().__init__(buf)
+        self.table = table
+
+    def persistent_load(self, pid):
+        return self.table[pid]
+
+
+def _fork_dumps(obj):
+    buf, table = io.BytesIO(), {}
+    _ForkPickler(buf, table).dump(obj)
+    return buf.getvalue(), table
+
+
+def _fork_loads(blob_table):
+    blob, table = blob_table
+    return _ForkUnpickler(io.BytesIO(blob), table).load()
+
+
 class SimPool:
     """Drop-in for multiprocessing.Pool as cobrapy uses it."""
 
@@ -112,7 +163,7 @@ class SimPool:
             raise ValueError("Number of processes must be at least 1")
         self.initializer = initializer
         # the arguments of the initializer are serialised once, when the workers are started
-        self.initargs_blob = pickle.dumps(tuple(initargs), protocol=pickle.HIGHEST_PROTOCOL)
+        self.initargs_blob = _fork_dumps(tuple(initargs))
         self.workers = [_Worker(i) for i in range(self.processes)]
         parent_np = np.random.get_state()
         for w in self.workers:
@@ -170,7 +221,7 @@ class SimPool:
             if not w.initialised:
                 w.initialised = True
                 if self.initializer is not None:
-                    self.initializer(*pickle.loads(self.initargs_blob))
+                    self.initializer(*_fork_loads(self.initargs_blob))
             out = []
             for item in items:
                 try:
@@ -199,6 +250,10 @@ class SimPool:
         completed = []  # (chunk_index, status, payload) in completion order
         queue = list(range(len(chunks)))
         per_worker = {}
+        # Chunks that overlap in virtual time are concurrent: their effects on memory the workers share may land in any
+        # order.  Two serialisations are sampled: each chunk takes effect when it starts, or when it completes.
+        exec_at = ctx.decide("pool.exec_at", lambda r: "finish" if r.random() < 0.5 else "start", "start",
+                             valid=lambda v: v in ("start", "finish"))
         while queue or events:
             while queue and idle:
                 ci = queue.pop(0)
@@ -220,11 +275,13 @@ class SimPool:
                     ctx.bump("probe:worker_ran_2+_chunks")
                 w.tasks.append(ci)
                 per_worker.setdefault(wid, []).append(ci)
-                status, payload = self._run_chunk(w, func, chunks[ci])
+                status, payload = self._run_chunk(w, func, chunks[ci]) if exec_at == "start" else (None, None)
                 tie = ctx.decide("pool.tie", lambda r: round(r.random(), 6), 0.0,
                                  valid=lambda v: isinstance(v, (int, float)))
                 heapq.heappush(events, (t + dur, tie, ci, wid, status, payload))
             ft, _, ci, wid, status, payload = heapq.heappop(events)
+            if status is None:
+                status, payload = self._run_chunk(self.workers[wid], func, chunks[ci])
             t = ft
             idle.append(wid)
             completed.append((ci, status, payload))
@@ -402,6 +459,16 @@ def install():
         _orig_value = gi.Objective.__dict__["value"]
         gi.Objective.value = property(_value_wrapper)
     pp.multiprocessing = _MPShim
+    global _orig_shared
+    if _orig_shared is None:
+        import cobra.sampling as cs
+        import cobra.sampling.hr_sampler as hs
+        import cobra.sampling.optgp as og
+
+        _orig_shared = hs.shared_np_array
+        for mod in (cs, hs, og):
+            if getattr(mod, "shared_np_array", None) is _orig_shared:
+                mod.shared_np_array = _shared_np_array_wrapper
 
 
 def begin_run(streams=None, schedule=None, stats=None):
